@@ -102,6 +102,45 @@ fn verif_grid() {
             }
         });
     }
+    // several rows per line (join), interactive output (a blank line after a multi-row result): interrupted at every printed
+    // line, what was printed is a prefix of the uninterrupted output
+    {
+        let def = "CREATE TABLE t(line = '^u=(\\\\w+) h=(\\\\w*)$', line[1] => k TEXT, line[2] => host TEXT); \
+                   CREATE TABLE hosts(line = '^h=(\\\\w+) site=(\\\\w*)$', line[1] => name TEXT, line[2] => site TEXT);";
+        let jpool = ["u=ann h=alpha", "u=bob h=gamma", "u=cy h=beta"];
+        for (bi, base) in sequences(&jpool, 3).into_iter().enumerate() {
+            if base.is_empty() { continue; }
+            for (fi, interactive) in [true, false].iter().enumerate() {
+                let (base, interactive) = (base.clone(), *interactive);
+                g.case(&format!("join-rows-b{}-f{}", bi, fi), move || {
+                    let hosts = write_temp("hosts", &join_lines(&["h=alpha site=eu", "h=beta site=us", "h=alpha site=ap", "h=alpha site=sa"]));
+                    let query = format!("SELECT k, hosts.site FROM t INNER JOIN hosts::'{}' ON t.host = hosts.name", hosts.display());
+                    let run_it = |after: usize| -> Outcome {
+                        let path = write_temp("in", &join_lines(&base));
+                        let tables = match tables(def) { Ok(t) => t, Err(e) => return Outcome::Error(e) };
+                        let statement = match parsing::parse(&query) { Ok(s) => s, Err(e) => return Outcome::Error(format!("{}", e)) };
+                        let running = Arc::new(AtomicBool::new(true));
+                        let mut executor = FileExecutor::with_output_printer(running.clone(), vec![File::open(&path).unwrap()],
+                            DisplayOptions { output_format: OutputFormat::Json, single_result: !interactive, print_result: true },
+                            Interrupting { lines: Vec::new(), after, running: running.clone() }, ExecutionEngine::new(&tables, &statement)).unwrap();
+                        let r = executor.execute();
+                        let _ = std::fs::remove_file(&path);
+                        match r { Ok(()) => Outcome::Lines(executor.output_printer().printer().lines.clone(), executor.statistics().total_lines), Err(e) => Outcome::Error(format!("{}", e)) }
+                    };
+                    let full = match run_it(usize::MAX) { Outcome::Lines(l, _) => l, other => { let _ = std::fs::remove_file(&hosts); return Err(format!("{:?}", other)); } };
+                    let mut result = Ok(());
+                    for m in 1..=full.len() {
+                        match run_it(m) {
+                            Outcome::Lines(got, _) => if !full.starts_with(&got) { result = Err(format!("{} over {:?} (blank line after a multi-row result: {}) interrupted when line {} of the output was printed: printed {:?}, which is not a prefix of the uninterrupted output {:?}", query, base, interactive, m, got, full)); break; },
+                            other => { result = Err(format!("interrupted at printed line {}: {:?} (an interrupt is not an error)", m, other)); break; }
+                        }
+                    }
+                    let _ = std::fs::remove_file(&hosts);
+                    result
+                });
+            }
+        }
+    }
     // an interrupt is not an error: the line after the interrupt is not looked at, whatever it holds
     for (i, files) in vec![vec![b("k=a v=1\n\u{0}\nk=a v=2\n")], vec![b("k=a v=1\n"), b("k=a v=2\n")]].into_iter().enumerate() {
         let mut files = files;
